@@ -33,6 +33,7 @@ META = dict(
     technique="property-based testing (Hypothesis) against a VCF parser + positional reference model, "
     "metamorphic mask relations",
     engines=["hypothesis-runner"],
+    exhaustive_subchecks=["C16.mask_forms"],
 )
 
 KEY_LIST = "vcf.callable_position_transform_gets_list"
@@ -499,6 +500,30 @@ def run_vcf(case, ctx):
     nt = nt or len(ploidies) > 1 or (sm is not None and sm["form"] != "bool_array") or 0 in [tpos[j] for j in expect_sites]
     ctx.nt(nt and ns > 0)
 
+    # ---- the command line front end prints the same text
+    if (a["individuals"] is None and a["_names"] is None and tkind is None and sm is None and smask is None
+            and a["iam"] is None and os.environ.get("VF_SCRATCH")):
+        import contextlib
+        import io
+
+        from tskit import cli
+
+        ctx.label("cli")
+        path = os.path.join(os.environ["VF_SCRATCH"], "c16.trees")
+        ts.dump(path)
+        argv = ["vcf", path]
+        if a["ploidy"] is not None:
+            argv += ["--ploidy", str(a["ploidy"])]
+        if a["contig_id"] is not None:
+            argv += ["--contig-id", a["contig_id"]]
+        if a["apz"]:
+            argv += ["--allow-position-zero"]
+        ns_ = cli.get_tskit_parser().parse_args(argv)
+        buf = io.StringIO()
+        with contextlib.redirect_stdout(buf):
+            ns_.runner(ns_)
+        ctx.eq(buf.getvalue(), text, "tskit vcf (command line) vs as_vcf: " + " ".join(argv[2:]))
+
     # ---- metamorphic: representation independence and 'mask == delete lines'
     if sm is not None or (smask is not None and not smask["form"].startswith("callable")):
         ctx.eq(call_vcf(tskit, np, ts, a, canonical=True), text, "vcf.mask_representation: " + W)
@@ -515,8 +540,44 @@ def run_vcf(case, ctx):
         ctx.eq("\n".join(keep) + "\n", text, "vcf.mask_invariance(masked == unmasked minus masked lines)")
 
 
+# ------------------------------------------------------------------ enumerated: every mask x every form
+def _enum_spec():
+    """4 samples under one root; sites at 0 (1 mutation), 1 (none), 2 (10 stacked mutations: 11 alleles),
+    4 (a back mutation); sample 3 is isolated on [3, 6) (missing calls at the last site)."""
+    nodes = [[1, 0.0, -1, -1, ""] for _ in range(4)] + [[0, 1.0, -1, -1, ""], [0, 2.0, -1, -1, ""]]
+    edges = [[0.0, 6.0, 4, 0, ""], [0.0, 6.0, 4, 1, ""], [0.0, 6.0, 5, 2, ""], [0.0, 3.0, 5, 3, ""],
+             [0.0, 6.0, 5, 4, ""]]
+    sites = [[0.0, "A", ""], [1.0, "C", ""], [2.0, "A", ""], [4.0, "G", ""]]
+    muts = [[0, 4, "T", -1, None, ""]]
+    letters = "CGTacgtnxy"
+    for q, c in enumerate(letters):
+        muts.append([2, 0, c, (len(muts) - 1) if q else -1, None, ""])
+    k = len(muts)
+    muts += [[3, 4, "A", -1, None, ""], [3, 0, "G", k, None, ""]]
+    return dict(L=6.0, nodes=nodes, edges=edges, sites=sites, mutations=muts, individuals=[], populations=[],
+                migrations=[])
+
+
+def enum_masks(tier, seed):
+    import itertools
+
+    spec = _enum_spec()
+    for bits in itertools.product([False, True], repeat=4):
+        for form in MASK_FORMS:
+            for apz in (None, True):
+                for tr in (None, "legacy", "fmax1_round"):
+                    for pl in (None, 2):
+                        yield dict(spec=spec, args=dict(
+                            layout="none", alpha="wide12", ploidy=pl, individuals=None, names=None, contig_id=None,
+                            transform=tr, site_mask=dict(form=form, bits=list(bits)), sample_mask=None, iam=None,
+                            apz=apz))
+
+
 SUBCHECKS = [
-    SubCheck("C16.vcf", run_vcf, strategy=vcf_case, quick=6000, thorough=180000, classify=classify,
+    SubCheck("C16.mask_forms", run_vcf, enumerate=enum_masks, quick=1, thorough=1, classify=classify,
+             rule="fixed 4-site tree sequence (site at position 0, site with 11 alleles, missing calls) x all 16 "
+             "site masks x 5 representations x allow_position_zero x 3 transforms x ploidy 1/2"),
+    SubCheck("C16.vcf", run_vcf, strategy=vcf_case, quick=10000, thorough=300000, classify=classify,
              rule="output was produced and parsed, with >=1 site, and: a site mask in a non-ndarray form, or mixed "
              "ploidy, or an unmasked site at transformed position 0, or a missing/sample-masked call",
              floors={"output_checked": 0.3, "error_expected": 0.1, "site_mask_non_ndarray": 0.3,
